@@ -421,6 +421,32 @@ pub fn check_consistency(store: &AnnotationStore, obs: &Obs, sc: &mut StepCheck,
                 format!("annotation {} annotations_in_targets(One) = {:?}, its target names {:?}", a.handle, a.in_targets, anns),
             );
         }
+        // depth Max: the transitive closure over annotation selectors (order not compared)
+        {
+            let mut closure: Vec<usize> = vec![];
+            let mut stack: Vec<usize> = a.target.anns();
+            while let Some(x) = stack.pop() {
+                if closure.contains(&x) {
+                    continue;
+                }
+                closure.push(x);
+                if let Some(t) = obs.anns.iter().find(|o| o.handle == x) {
+                    stack.extend(t.target.anns());
+                }
+            }
+            closure.sort();
+            let mut got_max = a.in_targets_max.clone();
+            got_max.sort();
+            got_max.dedup();
+            if got_max != closure {
+                sc.add(
+                    Fam::Index,
+                    "forward.annotations_in_targets_max",
+                    format!("{}|{}", kind, diff_lists(&closure, &got_max).unwrap_or("?")),
+                    format!("annotation {} annotations_in_targets(Max) = {:?}, the transitive closure of its targets is {:?}", a.handle, a.in_targets_max, closure),
+                );
+            }
+        }
         let set_of = |f: &dyn Fn(&MSel) -> Option<usize>| -> Vec<usize> {
             let mut v: Vec<usize> = a.target.leaves().into_iter().filter_map(|s| f(s)).collect();
             v.sort();
@@ -643,6 +669,29 @@ pub fn check_consistency(store: &AnnotationStore, obs: &Obs, sc: &mut StepCheck,
             sc.add(Fam::Index, &format!("raw.{}", name), class, format!("index {}: unexpected entries {:?}, missing entries {:?}", name, extra, lack));
         } else if got != g {
             sc.add(Fam::Index, &format!("raw.{}", name), "order", format!("index {} is not in sorted (chronological) order: {:?}", name, got));
+        }
+    }
+    // index_totalcount() must report the sizes of exactly these maps
+    {
+        let uniq = |v: &Vec<(usize, usize, usize)>| {
+            let mut x = v.clone();
+            x.sort();
+            x.dedup();
+            x.len()
+        };
+        let uniq2 = |v: &Vec<(usize, usize)>| {
+            let mut x = v.clone();
+            x.sort();
+            x.dedup();
+            x.len()
+        };
+        let mut t = exp_text.clone();
+        t.sort();
+        t.dedup();
+        let expected = vec![uniq(&exp_dda), t.len(), uniq2(&exp_resmeta), uniq2(&exp_setmeta), uniq2(&exp_annann), 0, uniq(&exp_keymeta), uniq(&exp_datameta)];
+        sc.checks += 1;
+        if obs.index_totalcount != expected {
+            sc.add(Fam::Index, "api.index_totalcount", "counts", format!("index_totalcount() = {:?}, the forward references imply {:?}", obs.index_totalcount, expected));
         }
     }
     cmp_raw(sc, "dataset_data_annotation_map", exp_dda, dump.dataset_data_annotation_map.clone(), true);
